@@ -5,6 +5,7 @@ import (
 	"go/constant"
 	"go/token"
 	"go/types"
+	"os"
 	"strings"
 	"sync"
 
@@ -56,19 +57,20 @@ type Exec struct {
 	wgs      map[string]*wgState
 	atomics  map[string]bool
 
-	asserts     int
-	assertsSym  int
-	inconcl     []string // reasons that make this path inconclusive (solver unknown etc.)
-	cexModel    map[string]string
-	vlogs       []string
-	reached     map[string]bool
-	initDone    bool
-	inInit      bool
-	uninterp    map[string]bool
-	solverCalls int
-	chanCount   int
-	race        *raceState
-	nativeObjs  map[string]Value
+	unknownBranches int
+	asserts         int
+	assertsSym      int
+	inconcl         []string // reasons that make this path inconclusive (solver unknown etc.)
+	cexModel        map[string]string
+	vlogs           []string
+	reached         map[string]bool
+	initDone        bool
+	inInit          bool
+	uninterp        map[string]bool
+	solverCalls     int
+	chanCount       int
+	race            *raceState
+	nativeObjs      map[string]Value
 }
 
 type symInfo struct {
@@ -179,6 +181,16 @@ func (e *Exec) addPC(t *Term) {
 func (e *Exec) check(extra *Term) string {
 	e.solverCalls++
 	r := e.solver.CheckWith(extra)
+	if strings.HasPrefix(r, "unknown") {
+		// incremental string solving occasionally gives up; one retry
+		r = e.solver.CheckWith(extra)
+		if strings.HasPrefix(r, "unknown") && os.Getenv("GOSYM_DEBUG_UNKNOWN") != "" {
+			fmt.Fprintf(os.Stderr, "UNKNOWN(%s) extra=%s\n  pc:\n", r, extra.S)
+			for _, t := range e.pc {
+				fmt.Fprintf(os.Stderr, "    %s\n", t.S)
+			}
+		}
+	}
 	return r
 }
 
@@ -225,8 +237,9 @@ func (e *Exec) branch(c *Term) bool {
 		return true
 	}
 	if strings.HasPrefix(rt, "unknown") || strings.HasPrefix(rf, "unknown") {
-		// keep both sides; the verdict of this path becomes inconclusive
-		e.inconcl = append(e.inconcl, "solver unknown at branch")
+		// keep both sides: exploring a possibly infeasible side cannot hide a violation, and every reported
+		// violation is validated by a sat check of its path condition (see modelNow)
+		e.unknownBranches++
 	}
 	rec(0, 2)
 	e.addPC(c)
